@@ -50,6 +50,12 @@ PAYLOADS = {
     "hex_escape": "\\x41", "percent": "%s %(x)s", "bell": "\x07", "tdq_nl_call": '"""\n' + CALL + '()\n"""', "cr": "\r" + CALL + "()",
     # boundary classes: the hostile character is the very last / very first character of the text
     "trail_dq": '"', "trail_sq": "'", "lead_dq": '"', "lead_bs": "\\",
+    # quote runs and backslash-quote runs: what an escaper that works on groups of three quotes gets wrong
+    "bs_tdq": '\\"""', "bsbs_tdq": '\\\\"""', "dq4": '"' * 4, "dq5": '"' * 5, "dq7": '"' * 7, "dq8": '"' * 8,
+    "bs_tdq_call": '\\"""+' + CALL + '()+"""',
+    # texts whose sanitised form starts with a digit / is reached through a leading underscore or sign: the generator prefixes such
+    # names, and what it prefixes must be the sanitised text
+    "lead_digit_dq": '"', "lead_digit_idx_call": '"]; ' + CALL + "() #", "lead_us_dq": '"', "lead_plus_dq": '"',
 }
 
 
@@ -62,6 +68,12 @@ def payload_text(cls: str, slot: int = 0) -> str:
         return a + "x" + frag          # the payload must END in the hostile character
     if cls in ("lead_dq", "lead_bs"):
         return frag + "x" + b          # ... or START with it
+    if cls in ("lead_digit_dq", "lead_digit_idx_call"):
+        return "9" + frag + "x" + b
+    if cls == "lead_us_dq":
+        return "_" + a + frag + b
+    if cls == "lead_plus_dq":
+        return "+1" + frag + "x" + b
     return a + frag + b
 
 
